@@ -417,6 +417,18 @@ def is_try_switch(body, cond):
     return False
 
 
+def is_next_switch(body, cond):
+    """The switch tests the Option returned by Iterator::next (loop iteration plumbing)."""
+    if cond.get("kind") != "variant" or cond["place"]["p"]:
+        return False
+    l = cond["place"]["l"]
+    for bb, t in body.calls():
+        d = t.get("dest")
+        if d and d["l"] == l and not d["p"] and callee_decl(t).endswith("Iterator::next"):
+            return True
+    return False
+
+
 def required_outcomes(facts, body, target_bb, include_debug=False, skip_try=True):
     """For every switch block that constrains reaching `target_bb`: (switch_bb, cond, set(outcomes))
     where outcomes are the only outcomes of that switch through which target_bb is reachable."""
